@@ -347,7 +347,7 @@ def path_conditions(crate, root, target):
         if s.get("k") == "let":
             init = strip(s.get("init"))
             if s.get("els") is not None and exits(s["els"]):
-                out.append(dict(c={"k": "letx", "pat": s["pat"], "init": s["init"]}, pol=True, node=s, kind="guard"))
+                out.append(dict(c={"k": "letx", "pat": s["pat"], "init": s["init"]}, pol=True, node=s, kind="guard", panics=not P.out(s["els"])))
                 return
             if init is not None and init.get("k") == "match":
                 live = [a for a in init["arms"] if not exits(a["body"])]
@@ -364,7 +364,8 @@ def path_conditions(crate, root, target):
                             if q.get("k") == "bind" and q["hid"] == binds[0][1]:
                                 q["hid"] = lp["hid"]
                                 q["name"] = lp["name"]
-                    out.append(dict(c={"k": "letx", "pat": pat, "init": init["scrut"]}, pol=True, node=s, kind="guard"))
+                    dead = [a for a in init["arms"] if a is not live[0]]
+                    out.append(dict(c={"k": "letx", "pat": pat, "init": init["scrut"]}, pol=True, node=s, kind="guard", panics=all(not P.out(a["body"]) for a in dead)))
 
     for i, n in enumerate(chain[:-1]):
         nxt = chain[i + 1]
